@@ -44,6 +44,11 @@ Oracle (model-independent): record present <=> merge3 reports a conflict
     file versioned.  When the same entry also has a path conflict the same
     resolve call settles it too and may move the file: then only content,
     helpers and record are judged, not the place.
+Entries whose repository text differs from the committed text (external groupcompress NUL
+    corruption, a C03 finding: needs several NUL-carrying texts in one scenario) have no well-defined
+    input — the merge compares the sha1s recorded at commit time but reads lines from the repository —
+    and are counted (`repository-text-differs-from-committed(C03):entry-not-evaluated`) and left out.
+    Every recorded case carries its whole scenario, so `--replay` runs exactly the same multi-entry merge.
 Run-time-checked assumption on merge3: the regions reproduce THIS and OTHER
     (projections), and the text-level laws hold.
 
@@ -715,7 +720,8 @@ def case_of(sc, i):
     return dict(fmt=sc["fmt"], reprocess=sc["reprocess"], show_base=sc["show_base"], cherrypick=sc["cherrypick"],
                 via=sc["via"], base=b.hex(), this=t.hex(), other=o.hex(),
                 action=sc["actions"][i][0], pre=sc["actions"][i][1],
-                locs=[None if x is None else list(x) for x in sc["locs"][i]], dirmove=sc.get("dirmove"), index=i)
+                locs=[None if x is None else list(x) for x in sc["locs"][i]], dirmove=sc.get("dirmove"), index=i,
+                **({"scenario": sc["scj"]} if "scj" in sc else {}))
 
 
 def gen_locs(rng, i, fmt):
@@ -813,17 +819,24 @@ def evaluate(ctx, sc, res):
     need_text_merge = False
     if not sc.get("locs"):
         sc = dict(sc, locs=[fixed_locs(i) for i in range(len(sc["triples"]))])
+    corrupt = set()
     if res.get("stored"):
-        # a repository that hands out a text different from the one committed is a defect of
-        # another property (C03: fetch/commit fidelity); C19 is evaluated on the texts the merge saw
-        fixed = []
-        for (b, t, o), (sb, so) in zip(sc["triples"], res["stored"]):
+        # A repository that hands out a text different from the one committed is a defect of another
+        # property (C03: fetch/commit fidelity; external groupcompress NUL corruption).  Such an entry has
+        # no well-defined input for C19: the merge compares the sha1s recorded at commit time (true text)
+        # but reads the lines from the repository (altered text).  It is counted and left out.
+        for i, ((b, t, o), (sb, so)) in enumerate(zip(sc["triples"], res["stored"])):
             if (sb, so) != (b, o):
-                ctx.count("repository-text-differs-from-committed(C03)")
-                ctx.extra.setdefault("repository_text_differs", []).append(
-                    dict(fmt=sc["fmt"], via=sc["via"], committed=[b.hex(), o.hex()], stored=[sb.hex(), so.hex()]))
-            fixed.append((sb, t, so))
-        sc = dict(sc, triples=fixed)
+                corrupt.add(i)
+                ctx.count("repository-text-differs-from-committed(C03):entry-not-evaluated")
+                if len(ctx.extra.setdefault("repository_text_differs", [])) < 20:
+                    ctx.extra["repository_text_differs"].append(
+                        dict(fmt=sc["fmt"], via=sc["via"], committed=[b.hex(), o.hex()], stored=[sb.hex(), so.hex()]))
+    # the whole scenario travels with every recorded case, so that a replay runs exactly the same merge
+    scj = dict(fmt=sc["fmt"], reprocess=sc["reprocess"], show_base=sc["show_base"], cherrypick=sc["cherrypick"],
+               via=sc["via"], triples=[[x.hex() for x in t] for t in sc["triples"]], actions=sc["actions"],
+               locs=sc["locs"], dirmove=sc.get("dirmove"))
+    sc = dict(sc, scj=scj)
     for i, (b, t, o) in enumerate(sc["triples"]):
         bl, tl, ol = split_lines(b), split_lines(t), split_lines(o)
         regs, out = regions_for(bl, tl, ol, sc["reprocess"], sc["cherrypick"])
@@ -832,7 +845,7 @@ def evaluate(ctx, sc, res):
         absent = sc["locs"][i][0] is None          # added by both sides: BASE is (None, None), never equal to a side
         changed_both = (t != o) if absent else (b != o and t != b and t != o)
         binary = is_binary((b, t, o))
-        if changed_both and not binary:
+        if changed_both and not binary and i not in corrupt:
             need_text_merge = True
         per_file.append((bl, tl, ol, regs, out, changed_both, binary))
     if sc.get("dirmove"):
@@ -842,9 +855,11 @@ def evaluate(ctx, sc, res):
         case = dict(fmt=sc["fmt"], reprocess=sc["reprocess"], show_base=sc["show_base"], via=sc["via"],
                     triples=[[x.hex() for x in t] for t in sc["triples"]], locs=sc["locs"], dirmove=sc.get("dirmove"))
         ctx.count("merge-raised:" + res["merge_exc"])
-        if not (both and need_text_merge and res["merge_exc"] == "E:CantReprocessAndShowBase"):
+        if not (both and (need_text_merge or corrupt) and res["merge_exc"] == "E:CantReprocessAndShowBase"):
             ctx.violation(case, "merge raised %s" % res["merge_exc"])
         for i, ent in enumerate(res["ents"]):
+            if i in corrupt:
+                continue
             tloc = tuple(sc["locs"][i][1])
             if ent["files"] != {tloc: sc["triples"][i][1]} or ent["recs"] or ent["pc"] or ent["ver"] != [tloc]:
                 ctx.violation(case_of(sc, i), "failed merge changed the tree: %s" % placed_str(ent))
@@ -854,6 +869,8 @@ def evaluate(ctx, sc, res):
         ctx.violation(dict(fmt=sc["fmt"], files=res["extra_files"]), "unexpected files / records after merge: %r" % res["extra_files"])
 
     for i, (b, t, o) in enumerate(sc["triples"]):
+        if i in corrupt:
+            continue
         bl, tl, ol, regs, out, changed_both, binary = per_file[i]
         case = case_of(sc, i)
         locs = sc["locs"][i]
@@ -1077,26 +1094,41 @@ def replay(ctx, case):
     if "base" not in case:
         return dict(note="scenario-level record", case=case)
     locs = case.get("locs") or fixed_locs(0)
-    i = stem_entry(locs[1][1], 10 ** 6) or 0
-    pad = i        # entry names carry their index: rebuild the scenario with unchanged filler entries in front
-    filler = (b"", b"", b"")
-    sc = dict(fmt=case["fmt"], reprocess=case["reprocess"], show_base=case["show_base"],
-              cherrypick=case["cherrypick"], via=case["via"],
-              triples=[filler] * pad + [(bytes.fromhex(case["base"]), bytes.fromhex(case["this"]), bytes.fromhex(case["other"]))],
-              actions=[["take_this", None]] * pad + [[case["action"], case["pre"]]],
-              locs=[fixed_locs(j) for j in range(pad)] + [locs], dirmove=case.get("dirmove"))
+    if case.get("scenario"):
+        # the recorded case carries its whole scenario: run exactly the same merge
+        j = case["scenario"]
+        sc = dict(fmt=j["fmt"], reprocess=j["reprocess"], show_base=j["show_base"], cherrypick=j["cherrypick"], via=j["via"],
+                  triples=[tuple(bytes.fromhex(x) for x in t) for t in j["triples"]], actions=j["actions"],
+                  locs=j["locs"], dirmove=j.get("dirmove"))
+        i = case.get("index", 0)
+    else:
+        i = stem_entry(locs[1][1], 10 ** 6) or 0
+        pad = i        # entry names carry their index: rebuild the scenario with unchanged filler entries in front
+        filler = (b"", b"", b"")
+        sc = dict(fmt=case["fmt"], reprocess=case["reprocess"], show_base=case["show_base"],
+                  cherrypick=case["cherrypick"], via=case["via"],
+                  triples=[filler] * pad + [(bytes.fromhex(case["base"]), bytes.fromhex(case["this"]), bytes.fromhex(case["other"]))],
+                  actions=[["take_this", None]] * pad + [[case["action"], case["pre"]]],
+                  locs=[fixed_locs(j) for j in range(pad)] + [locs], dirmove=case.get("dirmove"))
     res = run_scenario(sc)
     cases, lines, outs = evaluate(ctx, sc, res)
     model = ctx.model(lines)
     ent = res["ents"][i]
     rs = res["resolves"][i] if res["resolves"] else None
-    return dict(case=case, texts=[repr(x) for x in sc["triples"][i]],
+    mine = [k for k, c in enumerate(cases) if isinstance(c, dict) and (c.get("index") == i or c.get("case", {}).get("index") == i)]
+    short = {k: v for k, v in case.items() if k != "scenario"}
+    return dict(case=short, whole_scenario_replayed=bool(case.get("scenario")), texts=[repr(x) for x in sc["triples"][i]],
+                stored_differs=None if not res.get("stored") else
+                [k for k, (tr, st) in enumerate(zip(sc["triples"], res["stored"])) if (tr[0], tr[2]) != tuple(st)],
                 paths=dict(base=None if locs[0] is None else side_path(sc, "base", locs[0]), this=side_path(sc, "this", locs[1]),
                            other=side_path(sc, "other", locs[2])),
                 impl=dict(after_merge=placed_str(ent), merge_exc=res["merge_exc"],
                           files={"%s/%s" % (DIRS[d], nm): repr(c) for (d, nm), c in sorted(ent["files"].items())},
                           conflicts=[(k, p) for k, _, _, p in ent["recs"]],
                           resolve=None if rs is None else dict(exc=rs[2], after=placed_str(rs[3]))),
-                model=[dict(line=l, model=m, impl=o) for l, m, o in zip(lines, model, outs)
-                       if l.startswith(("mf", "rt", "rc", "pl", "rp"))][-5:],
-                oracle_failures=[v["what"] for v in ctx.violations])
+                model=[dict(line=lines[k][:2000], model=model[k], impl=outs[k]) for k in mine
+                       if lines[k].startswith(("mf", "rt", "rc", "pl", "rp"))][-5:],
+                mismatching_lines=[dict(line=lines[k][:2000], model=model[k], impl=outs[k])
+                                   for k in range(len(lines)) if model[k] != outs[k]][:5],
+                oracle_failures=[v["what"] for v in ctx.violations if (v["case"] or {}).get("index", i) == i],
+                oracle_failures_other_entries=[v["what"] for v in ctx.violations if (v["case"] or {}).get("index", i) != i][:5])
